@@ -403,7 +403,7 @@ func runMain(args []string) int {
 					return
 				}
 				// confirm alone
-				res := soloConfirm(self, w, cur, why, errTail, logDir)
+				res := soloConfirm(self, w, cur, why, errTail, logDir, budget)
 				a.add(cur, res)
 				from = cur + 1
 			}
@@ -701,8 +701,12 @@ func tailFile(path string, n int) string {
 }
 
 // soloConfirm re-runs one suspect case alone under hard rlimits.
-func soloConfirm(self string, w workerArgs, idx int, why, errTail, logDir string) *Result {
-	args := []string{"limexec", "60", "0", "-1", "--", self, "worker", "-prop", w.prop, "-tier", w.tier, "-seed", strconv.FormatInt(w.seed, 10),
+func soloConfirm(self string, w workerArgs, idx int, why, errTail, logDir string, budget float64) *Result {
+	limit := 60
+	if int(budget)*3 > limit {
+		limit = int(budget) * 3
+	}
+	args := []string{"limexec", strconv.Itoa(limit), "0", "-1", "--", self, "worker", "-prop", w.prop, "-tier", w.tier, "-seed", strconv.FormatInt(w.seed, 10),
 		"-bin", w.bin, "-binrace", w.binRace, "-only", strconv.Itoa(idx)}
 	cmd := exec.Command(self, args...)
 	errPath := filepath.Join(logDir, fmt.Sprintf("solo%d.stderr", idx))
@@ -740,7 +744,7 @@ func soloConfirm(self string, w workerArgs, idx int, why, errTail, logDir string
 	sig := crashSignature(errTail + "\n" + soloTail)
 	return &Result{Evals: 1, Viol: []Violation{{
 		Class:  class + ":" + sig,
-		Detail: fmt.Sprintf("case %d: %s; solo re-run under RLIMIT_CPU=60 also failed (%v)\n--- batch stderr tail\n%s\n--- solo stderr tail\n%s", idx, why, err, errTail, soloTail),
+		Detail: fmt.Sprintf("case %d: %s; solo re-run under RLIMIT_CPU also failed (%v)\n--- batch stderr tail\n%s\n--- solo stderr tail\n%s", idx, why, err, errTail, soloTail),
 	}}}
 }
 
